@@ -4,13 +4,14 @@ use super::*;
 
 /// selector = sum key_i * 31^i  (mod 2^32)
 #[kani::proof]
-#[kani::unwind(8)]
+#[kani::unwind(12)]
 fn c14_selector_polynomial() {
-    let k: [u32; 6] = kani::any();
+    let k: [u32; 10] = kani::any();
     let n: usize = kani::any();
-    kani::assume(n <= 6);
+    kani::assume(n <= 10);
     let got = ShaderPackage::build_selector(&k[..n]);
-    let pow: [u32; 6] = [1, 31, 961, 29791, 923521, 28629151];
+    // 31^i mod 2^32 (31^7 and above no longer fit 32 bits)
+    let pow: [u32; 10] = [1, 31, 961, 29791, 923521, 28629151, 887503681, 1742810335, 2487512833, 4098453791];
     let mut want: u32 = 0;
     let mut i = 0;
     while i < n {
@@ -18,7 +19,7 @@ fn c14_selector_polynomial() {
         i += 1;
     }
     assert_eq!(got, want);
-    kani::cover!(n == 6);
+    kani::cover!(n == 10);
     kani::cover!(n == 0);
 }
 
